@@ -166,6 +166,26 @@ static void h_op(void)
     return;
   }
   /* ---------------- integer vector shuffle / reverse (esl_vectorops.c) ---------------- */
+  if (!strcmp(op, "dshuffle") || !strcmp(op, "fshuffle") || !strcmp(op, "lshuffle") ||
+      !strcmp(op, "dreverse") || !strcmp(op, "freverse") || !strcmp(op, "lreverse") || !strcmp(op, "vcreverse")) {
+    /* same values as small integers, stored as double / float / int64 / char */
+    char **f, *dup; const char *vv = h_arg("v"); int n = (vv && strcmp(vv, "-")) ? split_commas(vv, &f, &dup) : (f = NULL, dup = NULL, 0);
+    int i, rev = (op[1] == 'r' || op[2] == 'r'); char t = op[0] == 'v' ? 'c' : op[0]; char num[24];
+    double *dv = malloc(sizeof(double) * (n + 1)), *dd = dv; float *fv = malloc(sizeof(float) * (n + 1)), *fd = fv;
+    int64_t *lv = malloc(sizeof(int64_t) * (n + 1)), *ld = lv; char *cv = malloc(n + 1), *cd = cv;
+    for (i = 0; i < n; i++) { int x = atoi(f[i]); dv[i] = x; fv[i] = (float) x; lv[i] = x; cv[i] = (char) x; }
+    if (rev && !ip) { dd = malloc(sizeof(double) * (n + 1)); fd = malloc(sizeof(float) * (n + 1)); ld = malloc(sizeof(int64_t) * (n + 1)); cd = malloc(n + 1);
+                      for (i = 0; i < n; i++) { dd[i] = -777; fd[i] = -777; ld[i] = -777; cd[i] = 0x77; } }
+    if (!rev) { if (t == 'd') esl_vec_DShuffle(R, dv, n); else if (t == 'f') esl_vec_FShuffle(R, fv, n); else esl_vec_LShuffle(R, lv, n); }
+    else { if (t == 'd') esl_vec_DReverse(dv, dd, n); else if (t == 'f') esl_vec_FReverse(fv, fd, n); else if (t == 'l') esl_vec_LReverse(lv, ld, n); else esl_vec_CReverse(cv, cd, n); }
+    ob_reset(); ob_add("ok ");
+    for (i = 0; i < n; i++) { sprintf(num, "%s%d", i ? "," : "", t == 'd' ? (int) dd[i] : t == 'f' ? (int) fd[i] : t == 'l' ? (int) ld[i] : (int) cd[i]); ob_add(num); }
+    if (n == 0) ob_add("-");
+    h_out("%s", ob);
+    if (dd != dv) { free(dd); free(fd); free(ld); free(cd); }
+    free(dv); free(fv); free(lv); free(cv); free(f); free(dup);
+    return;
+  }
   if (!strcmp(op, "ishuffle") || !strcmp(op, "ireverse")) {
     char **f, *dup; const char *vv = h_arg("v"); int n = (vv && strcmp(vv, "-")) ? split_commas(vv, &f, &dup) : (f = NULL, dup = NULL, 0);
     int *v = malloc(sizeof(int) * (n + 1)), *dst = v, i; char num[24];
@@ -195,7 +215,9 @@ static void h_op(void)
     if      (!strcmp(op, "msashuffle")) status = esl_msashuffle_Shuffle(R, msa, shuf);
     else if (!strcmp(op, "bootstrap"))  status = esl_msashuffle_Bootstrap(R, msa, shuf);
     else                                status = esl_msashuffle_VShuffle(R, msa, shuf);
-    if (status != eslOK) h_out("%s", h_status(status)); else out_msa(shuf, dig, alen);
+    if (status == eslOK && !dig) { int i; for (i = 0; i < nseq; i++) if (shuf->aseq[i][alen] != 0) status = -12345; }
+    if (status == -12345) h_out("ok-but-no-nul");
+    else if (status != eslOK) h_out("%s", h_status(status)); else out_msa(shuf, dig, alen);
     if (shuf != msa) esl_msa_Destroy(shuf);
     esl_msa_Destroy(msa); free(rows); free(dup);
     return;
@@ -221,6 +243,16 @@ static void h_op(void)
     if (of[2]) { msa->ss = malloc(sizeof(char *) * msa->sqalloc); for (i = 0; i < msa->sqalloc; i++) msa->ss[i] = i < nseq ? unhex_str(of[2][i]) : NULL; }
     if (of[3]) { msa->sa = malloc(sizeof(char *) * msa->sqalloc); for (i = 0; i < msa->sqalloc; i++) msa->sa[i] = i < nseq ? unhex_str(of[3][i]) : NULL; }
     if (of[4]) { msa->pp = malloc(sizeof(char *) * msa->sqalloc); for (i = 0; i < msa->sqalloc; i++) msa->pp[i] = i < nseq ? unhex_str(of[4][i]) : NULL; }
+    /* the parsers' length arrays, present iff the annotation is: sslen[i] = 1000+i, salen[i] = 2000+i, pplen[i] = 3000+i */
+    if (of[2]) { msa->sslen = malloc(sizeof(int64_t) * msa->sqalloc); for (i = 0; i < msa->sqalloc; i++) msa->sslen[i] = 1000 + i; }
+    if (of[3]) { msa->salen = malloc(sizeof(int64_t) * msa->sqalloc); for (i = 0; i < msa->sqalloc; i++) msa->salen[i] = 2000 + i; }
+    if (of[4]) { msa->pplen = malloc(sizeof(int64_t) * msa->sqalloc); for (i = 0; i < msa->sqalloc; i++) msa->pplen[i] = 3000 + i; }
+    /* a second #=GS tag present only for the sequences whose gs2 field is not "~" */
+    { char **g2, *g2d; const char *gv = h_arg("gs2");
+      if (gv && strcmp(gv, "none") && split_commas(gv, &g2, &g2d) == nseq) {
+        for (i = 0; i < nseq; i++) if (strcmp(g2[i], "~")) { char *t = unhex_str(g2[i]); esl_msa_AddGS(msa, "T2", -1, i, t, -1); free(t); }
+        free(g2); free(g2d);
+      } }
     for (i = 0; i < nseq; i++) esl_keyhash_Store(msa->index, msa->sqname[i], -1, NULL);
     status = esl_msashuffle_PermuteSequenceOrder(R, msa);
     if (status != eslOK) h_out("%s", h_status(status));
@@ -240,6 +272,11 @@ static void h_op(void)
         if (of[4]) { ob_add("/"); ob_add(h_hex(msa->pp[i], strlen(msa->pp[i]))); }
         if (of[5]) { ob_add("/"); ob_add(h_hex(msa->gs[0][i], strlen(msa->gs[0][i]))); }
         if (of[6]) { ob_add("/"); ob_add(h_hex(msa->gr[0][i], strlen(msa->gr[0][i]))); }
+        if (of[2]) { sprintf(num, "/%" PRId64, msa->sslen[i]); ob_add(num); }
+        if (of[3]) { sprintf(num, "/%" PRId64, msa->salen[i]); ob_add(num); }
+        if (of[4]) { sprintf(num, "/%" PRId64, msa->pplen[i]); ob_add(num); }
+        { int tg; for (tg = 0; tg < msa->ngs; tg++) if (!strcmp(msa->gs_tag[tg], "T2")) {
+            ob_add("/"); if (msa->gs[tg][i]) ob_add(h_hex(msa->gs[tg][i], strlen(msa->gs[tg][i]))); else ob_add("~"); } }
         if (esl_keyhash_Lookup(msa->index, msa->sqname[i], -1, &ki) != eslOK || ki != i) idxok = 0;
       }
       if (nseq == 0) ob_add("-");
